@@ -34,8 +34,9 @@ type Case struct {
 }
 
 type harness struct {
-	run   *hx.Run
-	model *hx.Model
+	run      *hx.Run
+	model    *hx.Model
+	perClass map[string]int
 }
 
 const (
@@ -386,7 +387,18 @@ type specStats struct {
 	accepted bool
 }
 
+// reportOracle shrinks and records a failing case. Only the first few cases of a failure class are
+// shrunk (shrinking re-runs the differential hundreds of times); the rest are counted.
 func (h *harness) reportOracle(c *Case, what string) {
+	class := failureClass(what) + "/" + c.Query.Kind
+	if c.Query.Kind == "probe" {
+		class += "/" + strings.SplitN(c.Query.Label, ":", 2)[0]
+	}
+	h.perClass[class]++
+	h.run.Count("failure:" + class)
+	if h.perClass[class] > 2 {
+		return
+	}
 	c, what = shrink(c, what)
 	key := classify(c, what)
 	h.run.Violate("property", what, key, false, c)
@@ -695,7 +707,7 @@ func (h *harness) replayCase(c *Case, verbose bool) (what string) {
 
 func main() {
 	run := hx.Init("C13")
-	h := &harness{run: run}
+	h := &harness{run: run, perClass: map[string]int{}}
 	if run.ModelPath != "" {
 		m, err := hx.StartModel(run.ModelPath)
 		if err != nil {
@@ -719,6 +731,10 @@ func main() {
 			run.Violate("property", what, classify(&c, what), false, &c)
 		}
 		run.Finish(h.model)
+		return
+	}
+	if dir := os.Getenv("C13_MKCORPUS"); dir != "" {
+		mkCorpus(dir)
 		return
 	}
 	for _, f := range run.CorpusFiles() {
@@ -757,4 +773,42 @@ func sortedKeys(m map[string]int) []string {
 	}
 	sort.Strings(out)
 	return out
+}
+
+// mkCorpus (maintenance mode, C13_MKCORPUS=<dir>): run against the UNPATCHED tree; writes the minimal
+// pre-fix failing inputs of F-13a–e as corpus cases.
+func mkCorpus(dir string) {
+	hs := handSpecs()
+	cands := []struct {
+		name string
+		c    Case
+	}{
+		{"F-13a-type-lookup-gated-type", Case{Spec: hs[0], Query: query{Kind: "probe", Label: "type:Secret", Text: `{ __type(name: "Secret") { name kind } }`}, Respect: true, Seed: 1}},
+		{"F-13b-possibleTypes-gated-implementation", Case{Spec: hs[0], Query: query{Kind: "probe", Label: "nav:Node", Text: `{ __type(name: "Node") { possibleTypes { name } } }`}, Respect: true, Seed: 1}},
+		{"F-13c-interfaces-gated-interface", Case{Spec: hs[1], Query: query{Kind: "probe", Label: "nav:Pub", Text: `{ __type(name: "Pub") { interfaces { name } } }`}, Respect: true, Seed: 1}},
+		{"F-13d-spread-only-common-type-gated", Case{Spec: hs[2], Query: query{Kind: "doc", Label: "doc", Text: "{ i { ... on J { id } } }"}, Respect: true, Seed: 1}},
+	}
+	for seed := uint64(1); seed < 400; seed++ {
+		cands = append(cands, struct {
+			name string
+			c    Case
+		}{"F-13e-gated-implementation-resolved", Case{Spec: hs[0], Query: query{Kind: "doc", Label: "doc", Text: "{ nodes { __typename id } }"}, Respect: false, Seed: seed}})
+	}
+	done := map[string]bool{}
+	for _, cd := range cands {
+		if done[cd.name] {
+			continue
+		}
+		c := cd.c
+		c.F = []string{}
+		what := failsSame(&c)
+		if what == "" {
+			continue
+		}
+		done[cd.name] = true
+		b, _ := json.MarshalIndent(map[string]interface{}{"property": "C13", "what": what, "case": &c}, "", " ")
+		os.MkdirAll(dir, 0o755)
+		os.WriteFile(dir+"/"+cd.name+".json", b, 0o644)
+		fmt.Printf("wrote %s: %s\n", cd.name, clip(what))
+	}
 }
